@@ -1,4 +1,5 @@
 import Proofs.AbsBatch
+import Proofs.BatchBound
 import Extracted.Guards
 import Extracted.Consts
 
@@ -96,6 +97,68 @@ theorem batch_eq_individual (C : Codec P) (split : Nat → Nat) (hsplit : ∀ n,
       = inputs.map fun x => (prepLeaf C x.1 x.2.1 x.2.2).1 := by simp [Function.comp_def]
   rw [e, hspec, List.map_map]
   exact zip_individual C h inputs hc
+
+
+/-! ### the exceptional coefficient vectors are few -/
+
+open Proofs.BatchCount Proofs.BatchBound in
+theorem good_congr (h : P.G1) (l l' : List (BLeaf P)) (hd : l.map (defect h) = l'.map (defect h))
+    (hg : Good h l) : Good h l' := by
+  intro a b hx
+  have e : ∀ m : List (BLeaf P), ((m.drop a).take b).map (defect h) = ((m.map (defect h)).drop a).take b := by
+    intro m; rw [List.map_take, List.map_drop]
+  rw [e l', ← hd, ← e l]
+  apply hg a b
+  obtain ⟨x, hxm, hxd⟩ := hx
+  have : defect h x ∈ ((l'.drop a).take b).map (defect h) := List.mem_map.2 ⟨x, hxm, rfl⟩
+  rw [e l', ← hd, ← e l] at this
+  obtain ⟨y, hym, hyd⟩ := List.mem_map.1 this
+  exact ⟨y, hym, by rw [hyd]; exact hxd⟩
+
+open Proofs.BatchCount Proofs.BatchBound in
+/-- the defect of a prepared leaf is the coefficient times the defect of the same leaf prepared with coefficient 1 -/
+theorem prep_defect (C : Codec P) (h : P.G1) (pk : P.G2) (sig : Bytes) (c : ZMod r) :
+    defect h (prepLeaf C pk sig c).1 =
+      c • delta h (prepLeaf C pk sig 1).1.pk (prepLeaf C pk sig 1).1.s := by
+  unfold prepLeaf defect delta
+  simp only
+  split
+  · simp
+  · simp only [one_smul, map_smul, LinearMap.smul_apply, smul_sub]
+
+open Proofs.BatchCount Proofs.BatchBound in
+/-- **batch verification equals individual verification for all but a few coefficient vectors**: for every list
+    of `n` keys and signatures (any mix of valid, invalid, correlated, malformed, off-group, identity) there is a set
+    of at most `(n+1)² · N^(n-1)` of the `N^n` coefficient vectors (`N = 2^128`: a fraction `≤ (n+1)²/2^128`) outside
+    which the result is, index by index, what `Verify` returns -/
+theorem batch_agrees_outside_few (C : Codec P) (split : Nat → Nat) (hsplit : ∀ n, 2 ≤ n → 0 < split n ∧ split n < n)
+    (h : P.G1) (n N : ℕ) (hN : N < r) (pk : Fin n → P.G2) (sig : Fin n → Bytes) :
+    ∃ B : Finset (Fin n → Fin N), B.card ≤ (n + 1) ^ 2 * N ^ (n - 1) ∧
+      ∀ c, c ∉ B →
+        batchVerify C split h (List.ofFn fun i => (pk i, sig i, coef (r := r) N (c i))) =
+          List.ofFn fun i => verifyCore C (pk i) (sig i) h := by
+  obtain ⟨B, hB, hgood⟩ := bad_vectors_few n N hN h
+    (fun i => (prepLeaf C (pk i) (sig i) 1).1.pk) (fun i => (prepLeaf C (pk i) (sig i) 1).1.s)
+  refine ⟨B, hB, fun c hc => ?_⟩
+  have hne : ∀ x ∈ (List.ofFn fun i => (pk i, sig i, coef (r := r) N (c i))), x.2.2 ≠ 0 := by
+    intro x hx
+    obtain ⟨i, rfl⟩ := (List.mem_ofFn' _ _).1 hx
+    show coef (r := r) N (c i) ≠ 0
+    unfold coef
+    intro hz
+    rw [ZMod.natCast_eq_zero_iff] at hz
+    have := Nat.le_of_dvd (by omega) hz
+    have := (c i).isLt
+    omega
+  have := batch_eq_individual C split hsplit h _ hne (by
+    apply good_congr h _ _ _ (hgood c hc)
+    rw [List.map_ofFn, List.map_ofFn, List.map_ofFn]
+    congr 1
+    funext i
+    simp only [Function.comp]
+    rw [defect_scaled, prep_defect])
+  rw [this, List.map_ofFn]
+  rfl
 
 /-- the result has one boolean per input -/
 theorem batch_length (C : Codec P) (split : Nat → Nat) (hsplit : ∀ n, 2 ≤ n → 0 < split n ∧ split n < n)
@@ -199,3 +262,4 @@ end Props.C03
 #print axioms Props.C03.tie_guards
 #print axioms Props.C03.coeff_nonzero
 #print axioms treeVerify_spec
+#print axioms Props.C03.batch_agrees_outside_few
